@@ -13,7 +13,7 @@ use std::time::Instant;
 
 fn readers(n: usize, tier: Tier) -> Vec<Rd> {
     let mut v = vec![Rd::default()];
-    for cap in 1..=tier.pick(4usize, 8usize) {
+    for cap in 1..=tier.pick(4usize, 12usize) {
         v.push(Rd { bufreader: cap, ..Rd::default() });
     }
     v.push(Rd { bufreader: 8192, ..Rd::default() });
